@@ -210,4 +210,45 @@ def bareLine (l : List Char) : Bool :=
   | (c :: _) :: _ => c.isDigit || c == '.' || c == '-' || c == '='
   | [] :: _ => true
 
+/-! ### comment-aware lexer (SHELXL: everything behind '!' is ignored; `REM` lines are never continued; a line that
+    begins with a blank and does not continue an instruction is a comment line) -/
+
+/-- the part of a physical line in front of the first '!' -/
+def code (pl : List Char) : List Char := pl.takeWhile (· ≠ '!')
+
+def isRem (pl : List Char) : Bool := (pl.take 3).map Char.toUpper == ['R', 'E', 'M']
+
+/-- the physical line is continued on the next one -/
+def flaggedC (pl : List Char) : Bool := !isRem pl && flagged (code pl)
+
+def allBlank (pl : List Char) : Bool := pl.all (· == ' ')
+
+/-- `cur`: the instruction collected so far (`none`: between instructions). Result: the code parts of the logical
+    lines, `none` when the file ends inside a continued instruction. -/
+def unwrapC : Option (List Char) → List (List Char) → Option (List (List Char))
+  | none, [] => some []
+  | some _, [] => none
+  | none, pl :: rest =>
+    if startsBlank pl || allBlank pl then unwrapC none rest            -- comment line / empty line
+    else if flaggedC pl then unwrapC (some (body (code pl))) rest
+    else (unwrapC none rest).map (code pl :: ·)
+  | some c, pl :: rest =>
+    if flaggedC pl then unwrapC (some (c ++ body (code pl))) rest
+    else (unwrapC none rest).map ((c ++ code pl) :: ·)
+
+def logicalC (t : List Char) : Option (List (List Char)) := unwrapC none (physLines t)
+
+/-- pairs (flagged line of an instruction, following line) where the following line does not begin with a blank; a
+    flagged last line is paired with nothing. `inside`: the previous line was flagged (comment lines are skipped as in
+    `unwrapC`). -/
+def badContinuations : Bool → List (List Char) → List (List Char × Option (List Char))
+  | _, [] => []
+  | inside, pl :: rest =>
+    if !inside && (startsBlank pl || allBlank pl) then badContinuations false rest
+    else if flaggedC pl then
+      match rest with
+      | [] => [(pl, none)]
+      | q :: _ => (if startsBlank q then [] else [(pl, some q)]) ++ badContinuations true rest
+    else badContinuations false rest
+
 end Shelx.C06
